@@ -2,7 +2,8 @@
    Pinned statements only; proofs live in Proofs/Router.v.  [match_route] is the model of the code
    (Model/Router.v); [matches], [routes_of], [rank_ltb], [selected] are the specification
    (Spec/RouterSpec.v).  All theorems are for route tables whose "**" segments are trailing. *)
-From KV Require Import Lib.Bytes Model.Router Spec.RouterSpec Proofs.Router.
+From KV Require Import Lib.Bytes Model.Router Model.BinSearch Spec.RouterSpec Proofs.Router Proofs.BinSearch.
+From Coq Require Import Sorting.Permutation Sorting.Sorted.
 
 (* the lookup computes exactly the declarative selection, for every table, method and path *)
 Theorem C11_refines : forall t m uri, wf_table t = true -> match_route t m uri = spec_route t m uri.
@@ -65,3 +66,30 @@ Example C11_ex_fallback : match_route ex_table (Std 1) (bs "/users/42") = Fallba
 Proof. vm_compute. reflexivity. Qed.
 Example C11_ex_custom : match_route ex_table (Custom (bs "PURGE")) (bs "/x/y") = Found 6%N [].
 Proof. vm_compute. reflexivity. Qed.
+
+
+(* ------------------------------------------------------------------ the literal fast path as the code has it
+   MethodBucket::finalize sorts the literal table (sort_unstable_by on the keys) and find_literal is
+   binary_search_by_key over it; Model/BinSearch.v has the bytewise order of <[u8]>::cmp, core's binary search loop
+   (both the current size/base loop and the older left/right one) with explicit fuel, and sorting as a relation:
+   any strictly sorted permutation.  The router with that fast path IS the router the theorems above speak about. *)
+Theorem C11_binary_search_router : forall t m uri, match_route_bs t m uri = match_route t m uri.
+Proof. exact match_route_bs_eq. Qed.
+Print Assumptions C11_binary_search_router.
+
+(* for ANY result of sorting a reachable bucket's literal table (the sort is unstable: the theorem does not care which) *)
+Theorem C11_binary_search_any_sort : forall b l' path,
+  reachable_bucket b -> is_sort_of (literals b) l' -> binary_search l' path = find_literal b path.
+Proof. exact find_literal_is_binary_search. Qed.
+
+(* binary search on a strictly sorted table is membership; it never runs out of fuel or out of bounds, sorted or not *)
+Theorem C11_binary_search_correct : forall l k v, sorted_by_key l -> (binary_search l k = Some v <-> In (k, v) l).
+Proof. exact binary_search_Some. Qed.
+Theorem C11_binary_search_total : forall a k, bs_terminated (binary_search_by_key a k).
+Proof. exact binary_search_by_key_total. Qed.
+(* keys stay unique under registration, so the sorted table is unique *)
+Theorem C11_literals_unique : forall b, reachable_bucket b -> literals_unique b.
+Proof. exact reachable_literals_unique. Qed.
+Theorem C11_sort_functional : forall l l1 l2, is_sort_of l l1 -> is_sort_of l l2 -> l1 = l2.
+Proof. exact is_sort_of_functional. Qed.
+Print Assumptions C11_binary_search_correct.
